@@ -110,6 +110,14 @@ DeliverRes(m) ==
           ELSE /\ rcache' = [rcache EXCEPT ![p] = Append(@, m)]
                /\ UNCHANGED <<cur, ph, stg, lockq, calls, hreq, seq, tmo, full>>
 
+(* A rejection reaches p's waiting Update call and the context of that call ends in the instant in which the call has  *)
+(* taken the response from its receiver (before Update returns).  The response was received, so no request timed out:  *)
+(* the call reports the rejection and discards its staged update exactly as without the cancellation                    *)
+(* (updateGeneric -> checkUpdateError -> DiscardUpdate); tmo stays as it is.                                            *)
+DeliverResLate(m) ==
+  /\ m.t = "rej" /\ m \in net /\ WaitingCall(Peer(m.from), m.st.ver) # {}
+  /\ DeliverRes(m)
+
 (* the user's handler answers *)
 Answer(p, accept) ==
   /\ ~Busy /\ hreq[p] # NoMsg
@@ -173,7 +181,7 @@ Proceed(p) ==
 
 Next ==
   \/ \E p \in P, i \in Calls, b \in 0..T : StartUpdate(p, i, b)
-  \/ \E m \in AllMsgs : DeliverUpd(m) \/ DeliverRes(m)
+  \/ \E m \in AllMsgs : DeliverUpd(m) \/ DeliverRes(m) \/ DeliverResLate(m)
   \/ \E p \in P, a \in BOOLEAN : Answer(p, a)
   \/ \E p \in P, i \in Calls : Cancel(p, i)
   \/ \E p \in P : Proceed(p)
